@@ -15,7 +15,7 @@ MANIFEST = dict(
 )
 GEN = ["Timing", "Errors"]
 THEOREMS = [
-    "c18_no_cross_talk_any_schedule", "c18_no_cross_talk", "c18_lost_response_witness", "c18_no_loss_partial", "c18_each_message_consumed_once"]
+    "c18_no_cross_talk_any_schedule", "c18_no_cross_talk", "c18_lost_response_witness", "c18_no_loss_partial", "c18_each_message_consumed_once", "c18_loss_only_by_other_waiter"]
 RULE = (
     "1..4 callers started at distinct ticks on one stream pair x every permutation of the answer order x answer ticks "
     "around poll boundaries (tie-free residues) x interleaved notifications / foreign responses / duplicate answers / errors; "
